@@ -53,7 +53,7 @@ Theorem target_equiv stabs n errs ms r :
 Proof.
   intros He Hm HL Lr. rewrite (ftp_parity_total stabs (2 * n) errs ms He Hm HL).
   assert (Lt : length (total_error (2 * n) errs) = 2 * n) by (apply xsum_len; exact He).
-  split; [apply syndrome_eq_zero; auto|apply zero_syndrome_eq; auto].
+  split; [apply (syndrome_eq_zero stabs _ _ n); auto|apply (zero_syndrome_eq stabs _ _ n); auto].
 Qed.
 
 (* product of operators: the syndrome of an XOR of operators is the XOR of their syndromes *)
